@@ -264,7 +264,7 @@ def rule_networkx(chk: Check, model: Model, rid: str):
     ms = [e for e in edges if dict(e.kwargs)]
     ok = len(st) == 1 and seq is not None and st[0].guard == T.mk_and([n.guard, T.lt(T.ZERO, seq)])
     chk.add(rid, "stateful edge for every seq > 0", ok, f"the edge kind_(seq-1) -> kind_seq is added under {T.show(st[0].guard)[:140] if st else None}, expected seq > 0 (and seq != -1)", chk.loc(fi, st[0].node if st else None))
-    if st:
+    if st and seq is not None:
         # vertex names are the structured f-string terms fstr(<kind>, "_", <seq>): compared as terms, not as source text
         kind_t = T.mk_index(("elem", T.mk_call("graph.vertices.items", []), 0), T.ZERO)
         kinds = [x for x in T.walk(st[0].args[0]) if x[0] == "index" and x[1][0] == "elem" and T.const_value(x[2]) == 0 and x[1][1][0] == "call" and str(T.call_name(x[1][1])).endswith("vertices.items")] if st[0].args else []
@@ -312,6 +312,7 @@ def rule_connected(chk: Check, model: Model, rid: str):
             "(the attachment loop only inspects the head of the candidate queue)", chk.loc(fi))
     adds = [e for e in r.events if e.kind == "call" and e.name.endswith(".add_edge")]
     ok = len(adds) == 1
+    cursor_form = False
     detail = "to_connected_graph must attach candidates with one add_edge"
     if ok:
         a = adds[0]
@@ -333,13 +334,35 @@ def rule_connected(chk: Check, model: Model, rid: str):
             # edge goes from the candidate to the supervisor vertex
             cand = a.args[0] if a.args else T.NONE
             first = (cand[0] == "index" and T.const_value(cand[2]) == 0) or (cand[0] == "call" and T.call_name(cand).endswith(".pop") and cand[2] and T.const_value(cand[2][0]) == 0)
+            # ... or the queue walked with a cursor: the candidate at the cursor, which starts at 0 and moves on by one exactly when
+            # the candidate is attached (nothing is popped then)
+            cur = cand[2] if cand[0] == "index" else T.NONE
+            if not first and cur[0] == "sym" and cur[1].startswith("loop") and ":" in cur[1]:
+                lid_, nm_ = int(cur[1][4:].split(":")[0]), cur[1].split(":", 1)[1]
+                l_ = r.loops.get(lid_)
+                out_ = l_.env_out.get(nm_) if l_ is not None else None
+                if out_ is not None:
+                    from . import flow as _flow
+                    brk_ = [g for g, _ in ev.loop_breaks.get(lid_, [])]
+                    moves = (T.assume(out_, cmpa[0], True) == T.add(cur, T.ONE) and T.assume(out_, cmpa[0], False) == cur) or \
+                        (out_ == T.add(cur, T.ONE) and bool(brk_) and all(_flow.implies(g, T.mk_not(cmpa[0])) for g in brk_))  # (not attached: the loop is left)
+                    pre_ = l_.pre.get(nm_, T.NONE)
+                    for _ in range(3):
+                        if pre_[0] == "sym" and pre_[1].startswith("loop") and ":" in pre_[1]:
+                            l2_ = r.loops.get(int(pre_[1][4:].split(":")[0]))
+                            out2 = l2_.env_out.get(nm_) if l2_ is not None else None
+                            # the enclosing loop hands the cursor on unchanged apart from what the inner loop did to it
+                            if l2_ is None or out2 is None or out2 != S(f"loopout{lid_}:{nm_}"):
+                                break
+                            pre_ = l2_.pre.get(nm_, T.NONE)
+                    first = cursor_form = moves and T.const_value(pre_) == 0
             ok = ok and len(a.args) == 2 and first and any(x[0] == "elem" for x in T.walk(a.args[1]))
     chk.add(rid, "non-ancestor attached iff it ends before the supervisor step starts", ok, detail, chk.loc(fi))
     anc = [e for e in r.events if e.kind == "call" and e.name == "networkx.ancestors"]
     ok = len(anc) == 1 and T.const_value(anc[0].args[1][2]) == -1 if anc and anc[0].args[1][0] == "index" else False
     chk.add(rid, "candidates = vertices that are no ancestors of the last supervisor step", ok, "the candidate set must be all vertices minus the ancestors of the last supervisor vertex", chk.loc(fi))
     pops = [e for e in r.events if e.kind == "call" and e.name.endswith(".pop") and adds and e.loops == adds[0].loops]
-    chk.add(rid, "attached candidates leave the queue", len(pops) == 1 and pops[0].args == (T.ZERO,), "an attached candidate must be popped from the head of the queue", chk.loc(fi))
+    chk.add(rid, "attached candidates leave the queue", (len(pops) == 1 and pops[0].args == (T.ZERO,)) or (cursor_form and not pops), "an attached candidate must be popped from the head of the queue", chk.loc(fi))
 
 
 def flow_atoms(t):
